@@ -42,6 +42,13 @@ CLeafs   == NumVs(CNums)
 SKeys    == Strs(S9, 1, 1) \cup Special \cup {<<"LO", "HI", "LO">>, <<"n", "u", "n">>}
 SLeafs   == {NullV} \cup NumVs({"true", "false", "#i32:-1", "#u64:max", "#f64:0.1", "#f32:third", "#i64:min"})
             \cup StrVs(Strs(S9, 0, 1) \cup Special \cup {<<"LO", "HI", "SLASH", "u">>})
+\* ---- every symbol the format treats specially (thorough): \b \t \n \f \r " / \ and the escape letters b f n r t u
+MCSymAll == <<"BS", "TAB", "NL", "FF", "CR", "QUOTE", "LO", "SLASH", "BSLASH", "b", "f", "n", "r", "t", "u", "HI">>
+S16 == {MCSymAll[i] : i \in 1..Len(MCSymAll)}
+K1Keys   == Strs(S16, 1, 1)
+K1Leafs  == StrVs(Strs(S16, 0, 2))
+K2Keys   == Strs(S16, 1, 2)
+K2Leafs  == StrVs({<<>>, <<"BSLASH", "r">>})
 \* ---- NUL byte (known finding): the smallest documents containing it
 ZKeys    == {<<"NUL">>, <<"LO", "NUL", "HI">>}
 ZLeafs   == StrVs({<<"NUL">>, <<"LO", "NUL", "HI">>, <<>>})
